@@ -6,7 +6,8 @@
 // real PromQL engine (rules.EngineQueryFunc): scraped samples and scrape staleness markers are
 // appended directly, groups are (re)loaded with rules.NewGroup + Group.CopyState(old) exactly
 // as Manager.Update does, evaluated with Group.Eval at generated timestamps, and removed through
-// the markStale path of Group.run (export shim VerifRemove = markStale + stop, as Manager.Update).
+// the markStale path of Group.run (export shims VerifRun + VerifMarkStaleAndStop = markStale; stop(), as
+// Manager.Update does).
 // The harness wraps the Appendable handed to the groups and records every Append call of every
 // appender (labels, timestamp, value, error class), attributes the appenders to rule evaluations
 // (the QueryFunc is wrapped to count rule queries) or to cleanupStaleSeries, and finally dumps
@@ -1067,7 +1068,11 @@ func main() {
 
 	meta := gallina.NewMeta("C45", f.Seed, f.Tier)
 	meta.Rule = "fixed corpus histories + seeded random histories (3-7 scraped series with churn and scrape staleness markers, 1-3 groups of 1-4 recording rules with dependent/independent expressions, 6-22 time steps with evaluations in random group order, reloads adding/removing/reordering/duplicating/moving rules, group removals); a history is non-trivial if the implementation wrote at least one accepted staleness marker from a rule evaluation and at least one reload or removal happened; distinct by the printed operation list"
-	cf := &gallina.CaseFile{Dir: f.Out, Type: "case", PerShard: 45,
+	perShard := 45
+	if f.Tier == "thorough" {
+		perShard = 150 // fewer coqc start-ups
+	}
+	cf := &gallina.CaseFile{Dir: f.Out, Type: "case", PerShard: perShard,
 		Preamble: "From Coq Require Import List ZArith Uint63.\nFrom Verif Require Import model.RuleGroup corr.CorrC45.\nImport ListNotations.\nOpen Scope uint63_scope.\n",
 		Footer:   gallina.StdFooter}
 
@@ -1181,7 +1186,7 @@ func main() {
 		runCase(id, ops, true)
 		id++
 	}
-	n := f.Count(84, 2500)
+	n := f.Count(84, 1800)
 	for i := 0; i < n; i++ {
 		runCase(id, genCase(gen.Fork(f.Seed, i), f.Tier), false)
 		id++
